@@ -42,7 +42,7 @@ def model_and_traces(ctx, prefixes):
             {"k": "req", "req": "START", "types": ["OFF"]}, {"k": "block", "ext": [], "drop": 0},
             {"k": "req", "req": "PAUSE"}, {"k": "req", "req": "STOP"},
             {"k": "req", "req": "START", "types": ["OFF"]}, {"k": "block", "ext": [1], "drop": 1}]})
-    nsim = 30 if q else 300
+    nsim = 30 if q else 1500
     rs = vlib.run_tlc(ctx, "WriteControlSim", "WriteControlSim.cfg", workers=1, simulate="num=%d" % nsim, depth=15)
     seen = {}
     for s in vlib.printed_json(rs.out, "SCEN"):
@@ -56,7 +56,7 @@ def model_and_traces(ctx, prefixes):
     with open(sp, "w") as f:
         json.dump(scens, f)
     tp = ctx.path("trace.ndjson")
-    nrand = 150 if q else 3000
+    nrand = 150 if q else 12000
     ctx.notes["scenarios_random"] = nrand
     rc_, out = vlib.go_test(ctx, "", HARNESS, "TestVerifWC", env={"VERIF_SCEN": sp, "VERIF_OUT": tp, "VERIF_NRANDOM": nrand}, timeout=1200)
     if rc_ != 0:
